@@ -1617,9 +1617,11 @@ class ObjCTypesBackend(ObjCBaseBackend):
             return '`{}`'.format(fmt_func(val))
         elif tag == 'field':
             if '.' in val:
-                cls_name, field = val.split('.')
+                # `Type.field` or `namespace.Type.field`
+                cls_name, field = val.rsplit('.', 1)
+                cls_name = cls_name.split('.')[-1]
                 return ('`{}` in `{}`'.format(
-                    fmt_var(field), self.obj_name_to_namespace[cls_name]))
+                    fmt_var(field), self.obj_name_to_namespace.get(cls_name, cls_name)))
             else:
                 return fmt_var(val)
         elif tag in ('type', 'val', 'link'):
